@@ -51,6 +51,8 @@ func playCtl(c ctlCase, withCtl bool) (pkts []simplePkt, alive bool, stuck strin
 	srvDone := make(chan struct{})
 	srv := drpcserver.NewWithOptions(newEcho{}, drpcserver.Options{Manager: drpcmanager.Options{SoftCancel: c.Soft}})
 	go func() { defer close(srvDone); _ = srv.ServeOne(ctx, b) }()
+	ahead := 0
+	_ = ahead
 	ci := 0
 	chunk := func() int {
 		if len(c.Chunks) == 0 {
@@ -89,9 +91,11 @@ func playCtl(c ctlCase, withCtl bool) (pkts []simplePkt, alive bool, stuck strin
 		}
 		pump()
 	}()
+	nextMid := uint64(0) // message ids already used on the coming stream (by a control packet addressed ahead)
 	for k, rp := range c.RPCs {
 		sid := uint64(k + 1)
-		mid := uint64(0)
+		mid := nextMid
+		nextMid = 0
 		type pk struct {
 			kind uint8
 			data []byte
@@ -142,7 +146,19 @@ func playCtl(c ctlCase, withCtl bool) (pkts []simplePkt, alive bool, stuck strin
 			}
 		}
 		if len(script) < len(rp.Ctl) {
-			emitCtl(rp.Ctl[len(script)])
+			if sel := rp.Ctl[len(script)]; withCtl && sel > 0 && sel%2 == 1 {
+				// after the call's last packet, addressed to the stream that has not been invoked yet: it is for
+				// nobody, and in particular not for the call that may still be answering
+				inserted++
+				nextMid = 1
+				fr := ref.Frame{Stream: sid + 1, Message: 1, Kind: unknownKinds[sel%len(unknownKinds)], Control: true, Done: true, Data: payload(sel, sel%5)}
+				a.Out().Inject(ref.AppendFrame(nil, fr))
+				ahead++
+			} else if !withCtl && sel > 0 && sel%2 == 1 {
+				nextMid = 1 // keep the ids of the real packets identical in both runs
+			} else {
+				emitCtl(sel)
+			}
 		}
 		pump()
 	}
